@@ -330,6 +330,37 @@ def build(tier, seed, verbose=True):
         for cname, ds in rr["diags"].items():
             results["main"]["diags"][cname] = ds
         results["retry%d" % rnd] = {"label": "retry%d" % rnd, "rc": rr["rc"], "wall_s": rr["wall_s"], "diags": {}, "built": rr["built"], "stderr_tail": rr["stderr_tail"]}
+    # must-fail declarations that were *accepted*: compile them with the driver too, so that the properties about
+    # accepted declarations (C11 invariant, C16 totality) also get a verdict on them
+    accepted = []
+    negdiags = results["neg"]["diags"]
+    for c in negs:
+        ds = negdiags.get(c.name, [])
+        for d in model[c.name]["decls"]:
+            if d.get("kind") != "neg" or d.get("prop") != "C09" or not d.get("model"):
+                continue
+            hit = any(a.get("line") and d["line0"] <= a["line"] <= d["line1"] for x in ds for a in x["at"])
+            if not hit:
+                m = json.loads(json.dumps(d["model"]))
+                m["family"] = "ACCEPTED"
+                m["clause"] = d["clause"]
+                m["mod"] = "acc_" + d["mod"]
+                m["path"] = "%s::%s" % (m["mod"], m["name"])
+                m["consts"] = []
+                accepted.append(m)
+    if accepted:
+        ca = corpus.Crate("pos_accepted_0")
+        for m in accepted[:400]:
+            ca.add(m)
+        ws_a = os.path.join(out, "ws_accepted")
+        ma = write_workspace(ws_a, [ca])
+        model.update(ma)
+        write_hints(os.path.join(out, "hints"), model)
+        ta = os.path.join(out, "target_accepted")
+        ra = run_cargo(ws_a, out, ta, label="accepted")
+        shutil.rmtree(ta, ignore_errors=True)
+        results["accepted"] = ra
+        crates.append(ca)
     runs = [results[k] for k in sorted(results)]
     for d in (target, target_neg, os.path.join(out, "target_rel")):
         shutil.rmtree(d, ignore_errors=True)
